@@ -351,14 +351,17 @@ def rule_datetime(ctx):
 
     def init_cell(ch):
         rule, expected = ch.choose("rule", [("DD.MM.YYYY", "%d.%m.%Y"), ("YY-MM-DD hh:mm:ss", "%y-%m-%d %H:%M:%S"), ("YYYYMMDD", "%Y%m%d"),
-                                            ("100% DD", "100%% %d"), ("hh:mm", "%H:%M"), ("DD/MM/YY", "%d/%m/%y")])
+                                            ("100% DD", "100%% %d"), ("hh:mm", "%H:%M"), ("DD/MM/YY", "%d/%m/%y"),
+                                            # place holders next to each other and next to letters: a translated "%m" followed
+                                            # by a literal "m" must not be read as the place holder "mm" ("%%M")
+                                            ("YYYYMMDDhhmmss", "%Y%m%d%H%M%S"), ("MMmm", "%m%M"), ("DDd MMm", "%dd %mm"), ("YYYYy", "%Yy")])
         interp_ = Interp(model, ch, stubs={"cutplace.ranges.Range": stub(lambda i, a, k: Obj(model.cls("cutplace.ranges.Range"), {}))})
         world = World(model, interp_, ch)
         field = interp_.instantiate(ClassRef(cls), ["d", False, "", rule, world.data_format("delimited")], {})
         has_time = any(part in expected for part in ("%H", "%M", "%S"))
         return (rule, (field.attrs.get("strptime_format"), field.attrs.get("_has_time")), (expected, has_time))
 
-    decide(ctx, "O2.5", "DateTime rule -> strptime layout", FIELDS + "DateTimeFieldFormat.__init__", init_cell, min_cells=6)
+    decide(ctx, "O2.5", "DateTime rule -> strptime layout", FIELDS + "DateTimeFieldFormat.__init__", init_cell, min_cells=10)
 
     def value_cell(ch):
         rule = ch.choose("rule", ["YYYY-MM-DD", "YYYY-MM-DD hh:mm:ss", "hh:mm:ss"])
@@ -558,6 +561,16 @@ def rule_range_from_length(ctx):
             if expected != actual:
                 return (key, "length-derived range differs from 'text has between lower and upper characters'",
                         "%r %s %d although its text has %d characters" % (produced[0], "accepts" if actual else "rejects", sample, len(str(sample))))
+        # "any integer whose text fits that length": 7 can be written as 007, -7 as -07 - an integer has a text of n characters
+        # as soon as its shortest text has at most n, so the lower length must not exclude small magnitudes
+        for sample in sorted(probes):
+            shortest = len(str(sample))
+            writable = any(upper is None or shortest <= upper for lower, upper in items)
+            actual = any((low is None or sample >= low) and (high is None or sample <= high) for low, high in produced_items)
+            if writable and not actual:
+                padded = str(abs(sample)).rjust(max(lower or 1 for lower, upper in items if upper is None or shortest <= upper) - (1 if sample < 0 else 0), "0")
+                return (key, "length-derived range rejects integers written with leading zeros to fit the length",
+                        "%r rejects %d although %s%s has a fitting number of characters" % (produced[0], sample, "-" if sample < 0 else "", padded))
         return (key, None, None)
 
     decide_kinds(ctx, "O2.8", "create_range_from_length(region representatives)", info.qualname, cell, min_cells=100)
